@@ -29,6 +29,13 @@ const NUMS: [(&str, &str); 22] = [
     ("true", "boolean"), ("True", "boolean"), ("1", "boolean"),
 ];
 
+/// well-known and look-alike datatype IRIs: every one of them must survive a round trip unchanged
+pub const DATATYPES: [&str; 16] = [
+    "http://www.w3.org/1999/02/22-rdf-syntax-ns#PlainLiteral", "http://www.w3.org/1999/02/22-rdf-syntax-ns#HTML", "http://www.w3.org/1999/02/22-rdf-syntax-ns#XMLLiteral",
+    "http://www.w3.org/1999/02/22-rdf-syntax-ns#JSONx", "http://www.w3.org/2001/XMLSchema#String", "http://www.w3.org/2001/XMLSchema#strin", "http://www.w3.org/2001/XMLSchema#string2",
+    "http://www.w3.org/2001/XMLSchema#normalizedString", "http://www.w3.org/2001/XMLSchema#anyURI", "http://www.w3.org/2001/XMLSchema#token", "http://www.w3.org/2001/XMLSchema#",
+    "http://www.w3.org/2001/XMLSchema#dateTime", "http://www.w3.org/2001/XMLSchema#int", "http://www.w3.org/2002/07/owl#real", "http://www.w3.org/2000/01/rdf-schema#Literal", "urn:dt",
+];
 pub fn rand_object(rng: &mut Rng, nb: usize) -> ST {
     match rng.below(14) {
         0..=3 => b(rng.below(nb)),
@@ -42,7 +49,7 @@ pub fn rand_object(rng: &mut Rng, nb: usize) -> ST {
             let (lex, dt) = *rng.pick(&NUMS);
             lit_dt(lex, &format!("{XSD}{dt}"))
         }
-        12 => lit_dt("x", "http://ex/dt"),
+        12 => if rng.chance(1, 2) { lit_dt("x", "http://ex/dt") } else { lit_dt(*rng.pick(&["abc", "", "1"]), *rng.pick(&DATATYPES)) },
         _ => lit_dt("", &format!("{XSD}string")),
     }
 }
@@ -161,6 +168,42 @@ pub fn jsonld_shapes(rng: &mut Rng, d: &mut Vec<Q>) {
     }
 }
 
+/// RDF/XML specific shapes: text over markup characters, whitespace runs, leading/trailing newlines, non-BMP and XML-illegal
+/// characters; language tags; datatypes incl. rdf:XMLLiteral; predicates with various namespace split points (and none)
+pub fn xml_shapes(rng: &mut Rng, d: &mut Vec<Q>) {
+    const PIECES: [&str; 30] = ["<", ">", "&", "\"", "'", " ", "  ", "\n", "\r", "\r\n", "\t", "]]>", "<b>", "</b>", "&amp;", "&#10;", "<!--", "-->", "<?x?>", "a", "é", "\u{1F600}", "\u{85}", "\u{2028}",
+        "\u{FFFD}", "x y", "\u{1}", "\u{B}", "\u{FFFE}", "\u{FFFF}"];
+    const PREDS: [&str; 22] = ["http://ex/p", "http://ex/ns#p", "http://ex/a/b.c", "http://ex/1p", "http://ex/p-1", "urn:x:p", "http://ex/é", "http://ex/a%20b", "http://ex/x:y", "http://ex/ns#", "http://ex/",
+        "http://ex/p1/", "http://ex/_", "http://ex/a.b-c_d", "http://www.w3.org/1999/02/22-rdf-syntax-ns#_1", "http://www.w3.org/1999/02/22-rdf-syntax-ns#li", "http://www.w3.org/1999/02/22-rdf-syntax-ns#Description",
+        "http://www.w3.org/1999/02/22-rdf-syntax-ns#about", "http://www.w3.org/1999/02/22-rdf-syntax-ns#value", "http://ex/ns#1", "http://ex/\u{1F600}p", "http://ex/ns?q=p"];
+    let n = 1 + rng.below(4);
+    for _ in 0..n {
+        const LABELS: [&str; 8] = ["0", "_0", "1a", "a.b", "é", "b0", "__0", "a-b"];
+        let odd = rng.chance(1, 4);
+        let s = if rng.chance(1, 2) { if odd { bn(*rng.pick(&LABELS)) } else { b(rng.below(3)) } } else { iri(*rng.pick(&["http://ex/a", "http://ex/a&b", "http://ex/a'b", "http://ex/a;b=c&d", "http://ex/é"])) };
+        let p = iri(*rng.pick(&PREDS));
+        let legal_only = rng.chance(3, 4);
+        let k = rng.below(5);
+        let mut txt = String::new();
+        for _ in 0..k {
+            let piece = if legal_only { PIECES[rng.below(26)] } else { PIECES[rng.below(30)] };
+            txt.push_str(piece);
+        }
+        let o = match rng.below(8) {
+            0 => if odd { bn(*rng.pick(&LABELS)) } else { b(rng.below(3)) },
+            1 => iri(*rng.pick(&["http://ex/a", "http://ex/o?x=1&y=2", "http://ex/o'q", "http://ex/o#f&g"])),
+            2 => lit_lang(&txt, *rng.pick(&["en", "fr-BE", "x-a"])),
+            3 => lit_dt(&txt, &format!("{RDF}XMLLiteral")),
+            4 => if rng.chance(1, 2) { lit_dt(&txt, *rng.pick(&["http://ex/dt", "http://ex/dt?a=1&b=2"])) } else { lit_dt(&txt, *rng.pick(&DATATYPES)) },
+            _ => lit_dt(&txt, &format!("{XSD}string")),
+        };
+        let q: Q = ([s, p, o], None);
+        if !d.iter().any(|x| crate::iso::same_quad(x, &q)) {
+            d.push(q);
+        }
+    }
+}
+
 pub fn prefix_map(k: usize) -> Vec<PrefixMapPair> {
     let mk = |p: &str, ns: &str| -> PrefixMapPair { (Prefix::new_unchecked(p.into()), Iri::new_unchecked(ns.into())) };
     match k % 6 {
@@ -232,6 +275,12 @@ pub fn input_of(seed: u64, idx: usize, family: &str) -> Input {
     let mut d: Vec<Q> = if fmt == "turtle" || fmt == "xml" { d.into_iter().map(|q| (q.0, None)).collect() } else { d };
     if fmt == "jsonld" && rng.chance(1, 2) {
         jsonld_shapes(&mut rng, &mut d);
+    }
+    if fmt == "xml" {
+        if rng.chance(1, 4) {
+            d.truncate(2);
+        }
+        xml_shapes(&mut rng, &mut d);
     }
     Input { fmt, pretty: idx % 4 != 3, pm: rng.below(6), indent: rng.below(3), d }
 }
